@@ -173,6 +173,39 @@ CLAIMS = {
         "technique": "writer key set derived from the pydantic class definitions, reader leaves and guards from the "
                      "value-flow graph of config_from_fits, set comparison per union variant",
     },
+    "C18": {
+        "text": "Decides writer/reader agreement per format (data set / group / attribute names, the AXIS{i} pattern "
+                "and its numbering from 0 in constructor and both readers, FITS HDU order vs index i+1, registry "
+                "completeness), that writers hand the grid's own arrays to the file layer and readers pass what they "
+                "read to the constructor unchanged, and slice consistency of grid_slice_interp; plus an exhaustive "
+                "DATA AUDIT over all ~550 000 nodes of all shipped tables (strictly increasing axes, CDF rows "
+                "non-decreasing from 0 to 1 within 1e-15, exit probabilities <= 1, smallest reachable tau energy above "
+                "the tau mass, axis names/order). It does NOT decide round-trip equality for arbitrary grids, slicing "
+                "values or agreement of vec_1d_interp with np.interp.",
+        "technique": "AST key / pattern agreement between sibling reader and writer functions + value-flow identity of "
+                     "stored arrays; data audit of shipped files (labelled, no repo code executed)",
+    },
+    "C19": {
+        "text": "Decides: the two shipped copies of both conversions have identical operation graphs over the same "
+                "constants.py objects (what bit-for-bit agreement means statically); one layer-index term for all layer "
+                "tables, isothermal branch by lapse rate == 0, inclusive layer selection (boundary in the upper layer) "
+                "in both directions over all layers in order, complementary mask storing inf; literal-table sanity "
+                "(equal lengths, monotone heights/pressures, sentinel) and equality with the 1976 US Standard "
+                "Atmosphere reference values. It does NOT decide the 1e-6 round trip or behaviour next to boundaries.",
+        "technique": "structural value numbering of the inlined, loop-unrolled value graphs of the sibling "
+                     "implementations; literal-table checks against reference constants",
+    },
+    "C20": {
+        "text": "Decides: SNR has degree 1 in the field and 1/2 in the antenna count; every in-place update multiplies the "
+                "field by a field-free factor, exactly one is showerEnergy/10 and exactly one |D(525 km)/D(h_det)| with "
+                "the same distance function; the field is computed exactly for 0 <= altDec <= 10 and is an exact-zero "
+                "product with the mask outside, all updates under that one mask; the 10 MHz bin constant agrees between "
+                "SNR and noise helpers, centres are arange+df/2, inclusive band edges on the table's centre column, "
+                "with a DATA AUDIT of the waveform table (one shared 5,15,... grid); order independence of the radio "
+                "stage and the SNR. It does NOT decide finiteness or values.",
+        "technique": "polynomial degrees / ratios on the value-flow graph, truth-table predicates, length-class "
+                     "(equivariance) typing, AST sibling agreement; data audit",
+    },
 }
 
 NOT_APPLICABLE = {
